@@ -138,10 +138,10 @@ func Projection(n *world.Node, round string, o oracle.ProjOpts) string {
 type dumpView struct {
 	State   string
 	Payload struct {
-		DkgId     string
-		Threshold int
-		PubKeys   map[string][]byte
-		IDs       map[string]int
+		DkgId                    string
+		Threshold                int
+		PubKeys                  map[string][]byte
+		IDs                      map[string]int
 		SignatureProposalPayload *struct {
 			Quorum map[string]struct {
 				Username  string
@@ -205,7 +205,7 @@ func HotPoly(n *world.Node, round string) (*share.PubPoly, error) {
 	if v == nil || v.Payload.DKGProposalPayload == nil {
 		return nil, fmt.Errorf("no dkg payload")
 	}
-	kr, err := dkg.LoadPubPolyBLSKeyringFromBytes(oracle.Suite, v.Payload.DKGProposalPayload.PubPolyBz)
+	kr, err := dkg.LoadPubPolyBLSKeyringFromBytes(oracle.NewSuite(), v.Payload.DKGProposalPayload.PubPolyBz)
 	if err != nil {
 		return nil, err
 	}
